@@ -718,4 +718,141 @@ theorem file_nf (f : File) (s : Src) (hwf : f.wf = true) (hp : f.parse = .ok s)
       refine srcRebuildP_nf s e hse heok hall.1 (hclean e (by rw [hse]; simp)) hhb hclo.1 ?_
       rw [htrail, hinner]; exact trailing_cases _
 
+/-! meaning of the summary -/
+
+def FP.isWs : FP → Bool
+  | .ws _ => true
+  | _ => false
+
+theorem summ_allWs : ∀ (W : List FP), W.all FP.isWs = true → summ W = .blank (concat W)
+  | [], _ => rfl
+  | p :: rest, h => by
+    simp only [List.all_cons, Bool.and_eq_true] at h
+    cases p with
+    | ws s => rw [summ_cons, summ_allWs rest h.2]; simp [summ1, Summ.comb]
+    | tok s => cases h.1
+    | cmt s => cases h.1
+
+theorem summ_lexHead (q : FP) (hq : q.isWs = false) (post : List FP) :
+    ∃ x i t, q.lex? = some x ∧ summ (q :: post) = .lexy [] x i t := by
+  cases q with
+  | ws s => cases hq
+  | tok s => rw [summ_cons]; cases summ post <;> exact ⟨_, _, _, rfl, rfl⟩
+  | cmt s => rw [summ_cons]; cases summ post <;> exact ⟨_, _, _, rfl, rfl⟩
+
+theorem summ_lexLast (pre : List FP) (p : FP) (hp : p.isWs = false) :
+    ∃ l f i, summ (pre ++ [p]) = .lexy l f i [] := by
+  rw [summ_append]
+  have : ∃ x, summ [p] = .lexy [] x true [] := by
+    cases p with
+    | ws s => cases hp
+    | tok s => exact ⟨_, summ_tok s⟩
+    | cmt s => exact ⟨_, summ_cmt s⟩
+  obtain ⟨x, hx⟩ := this
+  rw [hx]
+  cases summ pre <;> exact ⟨_, _, _, rfl⟩
+
+/-- WHAT THE SUMMARY SAYS: if the inner flag is set, the whitespace between any two neighbouring
+    tokens/comments of the output is an acceptable separator for the second one -/
+theorem summ_inner_spec {ps : List FP} {l : Text} {f : Lex} {t : Text} (h : summ ps = .lexy l f true t)
+    (pre W post : List FP) (p q : FP) (hps : ps = pre ++ [p] ++ W ++ q :: post)
+    (hp : p.isWs = false) (hq : q.isWs = false) (hW : W.all FP.isWs = true) :
+    ∃ x, q.lex? = some x ∧ sepOk (concat W) x = true := by
+  obtain ⟨l1, f1, i1, h1⟩ := summ_lexLast pre p hp
+  obtain ⟨x, i2, t2, hx, h2⟩ := summ_lexHead q hq post
+  refine ⟨x, hx, ?_⟩
+  rw [hps, summ_append, summ_append, h1, h2, summ_allWs W hW] at h
+  simp only [Summ.comb, List.nil_append, List.append_nil] at h
+  injection h with _ _ hi _
+  simp only [Bool.and_eq_true] at hi
+  exact hi.1.2
+
+/-- and nothing is written before the first token when the leading whitespace is empty -/
+theorem summ_lead_spec : ∀ {ps : List FP} {f : Lex} {i : Bool} {t : Text}, summ ps = .lexy [] f i t →
+    ∀ (W post : List FP) (q : FP), ps = W ++ q :: post → W.all FP.isWs = true → q.isWs = false → concat W = []
+  | ps, f, i, t, h, W, post, q, hps, hW, hq => by
+    obtain ⟨x, i2, t2, _, h2⟩ := summ_lexHead q hq post
+    rw [hps, summ_append, summ_allWs W hW, h2] at h
+    simp only [Summ.comb, List.append_nil] at h
+    injection h with h _ _ _
+
+
+/-! ### the exclusion, decidable -/
+
+def closedB (ts : List Trivia) : Bool :=
+  match ts.getLast? with
+  | none => true
+  | some (.comment _) => true
+  | some _ => false
+
+theorem closedT_of_closedB {ts : List Trivia} (h : closedB ts = true) : closedT ts := by
+  unfold closedB at h
+  cases hl : ts.getLast? with
+  | none => exact Or.inl (List.getLast?_eq_none_iff.mp hl)
+  | some t =>
+    rw [hl] at h
+    cases t with
+    | comment c => exact Or.inr ⟨c, hl⟩
+    | emptyLine => cases h
+    | linebreak => cases h
+    | comma => cases h
+
+def allFlatB : List Expr → Bool
+  | [] => true
+  | x :: r => x.before.isEmpty && closedB (x.effAfter false) && allFlatB r
+
+theorem allFlat_of_B : ∀ {es : List Expr}, allFlatB es = true → allFlat es
+  | [], _ => trivial
+  | x :: r, h => by
+    simp only [allFlatB, Bool.and_eq_true, List.isEmpty_iff] at h
+    exact ⟨h.1.1, closedT_of_closedB h.1.2, allFlat_of_B h.2⟩
+
+mutual
+/-- `Expr.inlineClean` as a Boolean: in every container written on one line, no item has leading
+    trivia and every item's trailing trivia is empty or ends with a comment -/
+def Expr.inlineCleanB : Expr → Bool
+  | .leaf .. => true
+  | .list v ml _ _ _ => (ml || allFlatB v) && allInlineCleanB v
+  | .set v ml _ _ _ _ => (ml || allFlatB v) && allInlineCleanB v
+  | .binding _ v _ _ _ => v.inlineCleanB
+def allInlineCleanB : List Expr → Bool
+  | [] => true
+  | e :: rest => e.inlineCleanB && allInlineCleanB rest
+end
+
+mutual
+theorem inlineClean_of_B : (e : Expr) → e.inlineCleanB = true → e.inlineClean
+  | .leaf .., _ => trivial
+  | .list v ml _ _ _, h => by
+    simp only [Expr.inlineCleanB, Bool.and_eq_true, Bool.or_eq_true] at h
+    refine ⟨fun hml => ?_, allInlineClean_of_B v h.2⟩
+    rcases h.1 with h1 | h1
+    · rw [hml] at h1; cases h1
+    · exact allFlat_of_B h1
+  | .set v ml _ _ _ _, h => by
+    simp only [Expr.inlineCleanB, Bool.and_eq_true, Bool.or_eq_true] at h
+    refine ⟨fun hml => ?_, allInlineClean_of_B v h.2⟩
+    rcases h.1 with h1 | h1
+    · rw [hml] at h1; cases h1
+    · exact allFlat_of_B h1
+  | .binding _ v _ _ _, h => inlineClean_of_B v h
+theorem allInlineClean_of_B : (es : List Expr) → allInlineCleanB es = true → allInlineClean es
+  | [], _ => trivial
+  | e :: rest, h => by
+    simp only [allInlineCleanB, Bool.and_eq_true] at h
+    exact ⟨inlineClean_of_B e h.1, allInlineClean_of_B rest h.2⟩
+end
+
+def Src.inlineCleanB (s : Src) : Bool := allInlineCleanB s.exprs
+
+theorem mem_allInlineClean : ∀ {es : List Expr}, allInlineClean es → ∀ e ∈ es, e.inlineClean
+  | [], _, e, he => by cases he
+  | x :: r, h, e, he => by
+    rcases List.mem_cons.mp he with h1 | h1
+    · subst h1; exact h.1
+    · exact mem_allInlineClean h.2 e h1
+
+theorem src_inlineClean {s : Src} (h : s.inlineCleanB = true) : ∀ e ∈ s.exprs, e.inlineClean :=
+  mem_allInlineClean (allInlineClean_of_B s.exprs h)
+
 end Nima.Frag
